@@ -6,7 +6,7 @@
 #   mutlab.sh run <patch.diff> <id>...  apply the patch to the scratch repo, run `check <id> ${TIER:-quick}` for each id, undo
 #   mutlab.sh clean
 set -u
-LAB=/tmp/mut
+LAB=${LAB:-/tmp/mut}
 case "${1:-}" in
   sync)
     mkdir -p $LAB
